@@ -6,6 +6,12 @@ CHECKS = {
     'C19': dict(category='exploration', technique='exhaustive enumeration of all digraphs on <=4 (thorough 5) vertices and of a bounded grammar family, against a transitive-closure oracle',
                 text='Every labelled digraph with self-loops up to the vertex bound, in two successor orders, is run through the real scc() and compared with the closure-based partition and the dependency order; every grammar skeleton of a bounded family is run through nonterminal_graph and sum_products (Bool) against the IR. A pass means no digraph/grammar below the bound violates the property.',
                 note='Trusted: the plain-Python transitive closure oracle; bounds: n<=4 quick / n<=5 thorough, 3 nonterminals, <=2 rules each.', design='3/C19'),
+    'C10': dict(category='exploration', technique='exhaustive enumeration of all labelled simple graphs on <=5 (thorough: <=7) vertices x 3 methods, validity checker + exact treewidth DP oracle',
+                text='Every labelled simple graph up to the vertex bound, built in two vertex orders, is decomposed by the real min_fill/quickbb/acb code; the harness checks tree-ness, vertex/edge cover and running intersection, compares widths with an exact subset-DP treewidth, re-eliminates the returned orders and checks that the bound helpers bracket the treewidth.',
+                note='Trusted: plain-Python validity checker and treewidth DP. Bounds: n<=5 quick (1+1+2+8+64+1024 graphs x 2 orders), all graphs on 6 and 7 vertices thorough.', design='3/C10'),
+    'C20': dict(category='exploration', technique='exhaustive enumeration of domains, factor shapes/representations and all binding call sequences up to depth 3 against a dictionary model',
+                text='All small FiniteDomain/RangeDomain instances, every (domain sizes, weight shape, representation) combination up to rank 3 and every sequence of <=3 binding calls over a 71-call alphabet on FGG and FactorGraph are executed on the real classes and compared with list/dict semantics written in plain Python.',
+                note='Trusted: the dictionary model of bindings. Rejection is any of ValueError/KeyError/TypeError. Bounds as in evidence.coverage.bounds.', design='3/C20'),
 }
 
 ALL = ['C%02d' % i for i in range(1, 21)]
